@@ -223,6 +223,10 @@ def run(ctx):
     ctx.rule('C06.R2', 'values stored among the callbacks are callbacks; '
              'anything else sits under a non-wire key', floor=2)
     msgpath.table_provenance(ctx, 'BaseManager', 'C06.R2')
+    from .common import shared_table_aliasing
+    shared_table_aliasing(
+        ctx, ('callbacks',), 'a callback stored for one namespace / client '
+        'is completed by an acknowledgement bearing the same id on another')
     ctx.rule('C06.R3', 'one fresh id per recipient, sent to that '
              'recipient\'s transport', floor=6)
     for fam in SA:
